@@ -97,6 +97,12 @@ def all_proofs():
           loops=L_parse_off_newlines, canaries=2, functions=['tokenize.cpp:parse_off_newlines'],
           expect=['parse_off_newlines_contract.postcondition', 'loop_decreases'],
           mutants=[('miscount', r"nl_count\+\+;", "nl_count += 2;", 'postcondition|loop_invariant')]),
+        P('parse_next_head', impl='contracts/shared/parsenext.impl.cpp', enforce='parse_next/parse_next_head_contract', canaries=3,
+          replace=['parse_ignored/parse_ignored_view', 'parse_macro/parse_macro_view'],
+          functions=['tokenize.cpp:parse_next (head fragment: up to the call of parse_whitespace)'], expect=['parse_next_head_contract.postcondition'],
+          assumed=['parse_ignored / parse_macro: arbitrary effect on the cursor and the chunk (views that only record the call)'],
+          mutants=[('macro_before_ignored', r'(?s)(   // If it is turned off.*?\n   \}\n)(   log_rule_B\("disable_processing_nl_cont"\);.*?\n   \}\n)', r'\2\1', 'postcondition'),
+                   ('ignored_always', r'if \(cpd.unc_off\)', 'if (true)', 'postcondition')]),
         P('tokenize_tail', enforce='tokenize_tail/tokenize_tail_contract', defines=['REAL_CSTR_ASSIGN=1'],
           functions=['tokenize.cpp:tokenize (tail fragment: choice of cpd.newline)', 'unc_text.cpp:UncText::operator=(const char*)', 'unc_text.cpp:UncText::set(const char*)'],
           expect=['tokenize_tail_contract.postcondition'],
